@@ -17,7 +17,8 @@ fn mk_chain(head: Pipe, ops: &[Op1]) -> Pipe {
 }
 
 fn cloneable_ops(full: bool) -> Vec<Op1> {
-  let mut v = list_ops(full);
+  // (on_complete / on_error take an FnOnce: the operator values are not Clone)
+  let mut v: Vec<Op1> = list_ops(full).into_iter().filter(|o| !matches!(o, Op1::OnComplete | Op1::OnError)).collect();
   v.push(Op1::Finalize);
   v.push(Op1::BoxIt);
   v.extend([
